@@ -57,6 +57,11 @@ def run(ctx):
     for adt in sorted(types):
         _check_type(ctx, F, adt, types[adt], widths)
     rule_disp(ctx, F, types)
+    for adt, rb, ok, names in sigs.rdlen_compress_agreement(F):
+        ctx.ob("C05.rdlen", adt, "no announced length when names are compressed", ok,
+               "%s::rdlen(compress = true) announces a length although compose_rdata compresses %s on a compressing "
+               "target: the advertised RDLENGTH differs from the octets written" % (adt.split("::")[-1], names), where=rb.where())
+    rule_fwd(ctx, F)
 
 
 def _width_table(F):
@@ -320,3 +325,38 @@ def rule_disp(ctx, F, types):
             ok = a[0] == "call" and (a[1] or "").endswith("remaining")
         ctx.ob(R, b, "opaque data = all remaining RDATA octets", ok,
                "unknown record data must take exactly parser.remaining() octets")
+
+
+# ---------------------------------------------------------------------------
+# forwarding impls (&T, &mut T, Box<T>, Rc<T>, Arc<T>, ...) keep the method
+# ---------------------------------------------------------------------------
+
+def rule_fwd(ctx, F):
+    """An impl of a codec trait for a pointer-like wrapper of a generic T
+    forwards each method to the same-named method of T.  (A copy-paste slip
+    `compose_canonical_rdata -> (*self).compose_rdata` loses the canonical
+    form only for data used through a reference.)"""
+    R = "C05.fwd"
+    ctx.floor(R, 9)
+    n = 0
+    for im in F.impls:
+        tr = im["trait"]
+        if not tr or not re.match(r"^(base|rdata|zonefile)::", tr):
+            continue
+        for it in im["items"]:
+            b = F.bodies.get(it["path"])
+            if b is None:
+                continue
+            for bi, t in b.calls():
+                if t.get("trait") != tr or not t["targs"] or not t["args"] or not t["fn"]:
+                    continue
+                if not re.match(r"^[A-Z][A-Za-z0-9]*$", t["targs"][0].replace("&", "").replace("mut ", "").strip()):
+                    continue
+                if deep_strip(b.term_of_operand(t["args"][0])) != ("arg", 1):
+                    continue
+                n += 1
+                callee = t["fn"].split("::")[-1]
+                ctx.ob(R, b, "forwards to the same method", callee == it["name"],
+                       "impl %s for %s: %s forwards to %s of the wrapped type" % (tr.split("::")[-1], im["self_ty"], it["name"], callee),
+                       b.where(bi), nontrivial=False)
+    ctx.call_sites += n
